@@ -25,7 +25,7 @@ func init() {
 
 func runC04(c *engine.Ctx, tier string) {
 	c.Al = configAliases(c.P)
-	notPersistent := "!topo.Configurable{}@1.Persistent"
+	notPersistent := "!topo.Configurable{}.Persistent"
 	// (2) entering SYNCHRONIZING
 	c.Guard(engine.Guard{ID: "C04.2a", Pkg: pkgConfigCtl, Min: 1,
 		Sel:     engine.Sel{Field: fState, RHS: "config/v2.ConfigurationStatus_SYNCHRONIZING"},
